@@ -67,6 +67,10 @@ def fmt_bytes(vals, point):
 
 def r_hex(ctx, prog, rule="R-HEX"):
     fns = sorted(prog.q("JsonDeserializer::decodeHex"), key=lambda f: f.key)
+    if not fns and not prog.q("JsonDeserializer::parseHex4"):
+        # ARDUINOJSON_DECODE_UNICODE=0: \u escapes are kept as text, the hex decoder is not instantiated
+        ctx.count(rule + ":skipped_decode_unicode_off", 1)
+        return
     ctx.floor(rule, "decodeHex", len(fns), 1)
     for fn in fns[:1]:
         tk = fn.params[0].get("tk", "s8")
